@@ -267,8 +267,8 @@ def _literal_seq(t, limit=16):
         return x[0] == 'const' or (x[0] in ('tuple', 'list') and all(lit(y) for y in x[1])) or \
             (x[0] == 'dict' and all(k is not None and lit(k) and lit(v) for k, v in x[1])) or \
             (x[0] == 'name') or (x[0] == 'call' and x[1][0] == 'name' and all(lit(y) for y in x[2]) and all(lit(v) for _, v in x[3]))
-    if t[0] in ('tuple', 'list') and 0 < len(t[1]) <= limit and all(lit(x) for x in t[1]):
-        return list(t[1])
+    if t[0] in ('tuple', 'list') and 0 < len(t[1]) <= limit and all(lit(x) for x in t[1]) and not all(x[0] == 'name' for x in t[1]):
+        return list(t[1])       # (a plain list of functions -- a registry -- is iterated, not unrolled)
     return None
 
 
